@@ -8,6 +8,7 @@ CONSTANTS
   MinTotal = 0
   Leaky = TRUE
   Alphabet <- CoreCmds
+  PreAlphabet <- CoreCmds
   Kinds <- AllKinds
   Ctxs <- MainCtx
 INIT Init
